@@ -811,3 +811,34 @@ V("c14d-dphi-tile", "C14", "silent",
   (GSTATE2, "        D_phi = np.diag(np.concatenate([cot_half_angles, cot_half_angles]))\n", "        D_phi = np.diag(np.tile(cot_half_angles, 2))\n"))
 V("c14d-purify-concatenate-literal", "C14", "silent",
   (GSTATE2, "        purification.xpxp_mean_vector = np.concatenate([mean] * 2)\n", "        purification.xpxp_mean_vector = np.concatenate([mean, mean])\n"))
+
+# --- C13g accumulator protocol
+GATEM2 = "piquasso/_math/gate_matrices.py"
+V("c13g-second-row-unguarded", "C13", {"rule": "C13g", "contains": "write index 1"},
+  (GATEM2, "    if cutoff == 1:\n        # NOTE: There is no second row to write, and accumulators of fixed size (e.g.,\n        # `tf.TensorArray`) and `tf.range(2, 1)` would raise.\n        return np.sqrt(sechr) * connector.transpose(\n            connector.stack_accumulator(matrix)\n        )\n\n", ""))
+V("c13g-displacement-range-from-two", "C13", {"rule": "C13g", "contains": "connector.range(2, cutoff)"},
+  (GATEM2, "    for i in connector.range(1, cutoff):\n", "    for i in connector.range(2, cutoff):\n"))
+V("c13g-guard-as-nesting", "C13", "silent",
+  (GATEM2, "    matrix = connector.write_to_accumulator(matrix, 1, second_row)\n", "    if cutoff >= 2:\n        matrix = connector.write_to_accumulator(matrix, 1, second_row)\n"))
+V("c13g-guard-less-than-two", "C13", "silent",
+  (GATEM2, "    if cutoff == 1:\n        # NOTE: There is no second row", "    if cutoff < 2:\n        # NOTE: There is no second row"))
+
+# --- round 3 (seeded): return-based order-insensitive shortcut, sequential positional edits, index accumulator dtype
+PROGRAMF = "piquasso/api/program.py"
+FOCKSTEPS = "piquasso/_simulators/fock/simulation_steps.py"
+INDICES = "piquasso/_math/indices.py"
+V("c16-map-modes-length-shortcut", "C16", {"rule": "C16a", "contains": "_map_modes"},
+  (PROGRAMF, "        if len(instruction.modes) == 0:\n            return register.modes\n", "        if len(instruction.modes) in (0, len(register.modes)):\n            return register.modes\n"))
+V("c16-map-modes-emptiness-form", "C16", "silent",
+  (PROGRAMF, "        if len(instruction.modes) == 0:\n            return register.modes\n", "        if not instruction.modes:\n            return register.modes\n"))
+V("c16-sequential-insert", "C16", {"rule": "C16b", "contains": "sequential insert"},
+  (FOCKSTEPS, "    basis[:, modes] = basis_vector\n", "    for mode, occupation_number in zip(modes, basis_vector):\n        basis = np.insert(basis, mode, occupation_number, axis=1)\n"))
+V("c16-remap-through-set", "C16", {"rule": "C16b", "contains": "_remap_modes"},
+  ("piquasso/api/simulator.py", "        return tuple(active_modes.index(mode) for mode in modes_to_remap)\n",
+   "        wanted = set(modes_to_remap)\n        return tuple(i for i, mode in enumerate(active_modes) if mode in wanted)\n"))
+V("c06d-accumulator-input-dtype", "C06", {"rule": "C06d", "contains": "accumulator dtype"},
+  (INDICES, "    sum_ = np.zeros(shape=basis.shape[:-1], dtype=np.int32)\n    accumulator = np.zeros(shape=basis.shape[:-1], dtype=np.int32)\n\n    for i in range(basis.shape[-1]):",
+   "    sum_ = np.zeros(shape=basis.shape[:-1], dtype=basis.dtype)\n    accumulator = np.zeros(shape=basis.shape[:-1], dtype=basis.dtype)\n\n    for i in range(basis.shape[-1]):"))
+V("c06d-accumulator-int64", "C06", "silent",
+  (INDICES, "    sum_ = np.zeros(shape=basis.shape[:-1], dtype=np.int32)\n    accumulator = np.zeros(shape=basis.shape[:-1], dtype=np.int32)\n\n    for i in range(basis.shape[-1]):",
+   "    sum_ = np.zeros(shape=basis.shape[:-1], dtype=np.int64)\n    accumulator = np.zeros(shape=basis.shape[:-1], dtype=np.int64)\n\n    for i in range(basis.shape[-1]):"))
